@@ -200,21 +200,14 @@ def h16d(e):
 
     def cex(env):
         fv = lambda x: float(concrete(np.array([x], dtype=object), env)[0])
-        rec = []
-
-        class Spy:
-            def get_cell_list(self, *a):
-                rec.append(a)
-                return None
-        orig = G.matid.ext
-        G.matid.ext = Spy()
-        try:
-            G.get_cell_list(pos, cell, pbc, fv(ext_), fv(cut))
-        finally:
-            G.matid.ext = orig
-        ok = bool(rec) and rec[0][3] == fv(ext_) and rec[0][4] == fv(cut)
-        return {"key": "H16d:get_cell_list", "what": f"get_cell_list(extension={fv(ext_)}, cutoff={fv(cut)}) calls the extension with extension={rec[0][3] if rec else None}, cutoff={rec[0][4] if rec else None}",
-                "replay": {"kind": "wrapper", "extension": fv(ext_), "cutoff": fv(cut)}, "reproduced": not ok}
+        msgs = conc_cell_list(fv(ext_), fv(cut))
+        if not msgs:
+            for ex_, cu_ in ((3.0, 1.0), (1.0, 3.0), (2.2, 1.05), (0.7, 2.4)):
+                msgs = conc_cell_list(ex_, cu_)
+                if msgs:
+                    return {"key": "H16d:get_cell_list", "what": f"get_cell_list(extension={ex_}, cutoff={cu_}): " + "; ".join(msgs[:2]), "replay": {"kind": "wrapper", "extension": ex_, "cutoff": cu_}, "reproduced": True}
+        return {"key": "H16d:get_cell_list", "what": f"get_cell_list(extension={fv(ext_)}, cutoff={fv(cut)}): " + "; ".join(msgs[:2]),
+                "replay": {"kind": "wrapper", "extension": fv(ext_), "cutoff": fv(cut)}, "reproduced": bool(msgs)}
     ok = len(calls) == 2 and calls[0][0] == "cl" and calls[1][0] == "ext" and r1 == "CL" and r2 == "EXT"
     e.post("wrappers call the extension once each and return its result", ok, cex)
     if ok:
@@ -222,6 +215,35 @@ def h16d(e):
         e.post("get_extended_system forwards the cutoff unchanged", zbool(calls[1][5] == cut) if isinstance(calls[1][5], SReal) else False, cex)
     e.reach("H16d")
     e.sample({"extension": "symbolic", "cutoff": "symbolic (both orders)"})
+
+
+def conc_cell_list(extension, cutoff):
+    """statement-level replay with the shipped extension: a cell list built through the Python wrapper must return, for query
+    points in the cell, exactly the periodic images within the cutoff among those within the extension distance of the cell"""
+    import itertools
+    cell = np.array([[3.0, 0, 0], [1.0, 4.0, 0], [0, 0, 5.0]])
+    pos = np.array([[0.3, 0.4, 0.5], [2.1, 2.9, 4.2]])
+    pbc = np.array([True, True, False])
+    msgs = []
+    try:
+        cl = G.get_cell_list(pos, cell, pbc, extension, cutoff)
+    except Exception as ex:
+        return [f"get_cell_list raised {type(ex).__name__}: {ex}"]
+    K = int(np.ceil(max(extension, cutoff) / 2.5)) + 2
+    images = [(i, (a, b, 0), pos[i] + a * cell[0] + b * cell[1]) for i in range(2) for a in range(-K, K + 1) for b in range(-K, K + 1)]
+    for q in (np.array([0.1, 0.1, 0.1]), np.array([1.9, 2.0, 2.5]), np.array([3.7, 3.9, 4.9])):
+        r = cl.get_neighbours_for_position(q[0], q[1], q[2])
+        got = sorted((int(i), tuple(int(round(v)) for v in f)) for i, f in zip(r.indices_original, r.factors))
+        for (i, f), d in zip(zip(r.indices_original, r.factors), r.distances):
+            if d > cutoff * (1 + 1e-9):
+                msgs.append(f"query {q.tolist()}: image of atom {int(i)} at distance {d:.6g} beyond the cutoff {cutoff} returned")
+        for i, f, p in images:
+            d = np.linalg.norm(q - p)
+            if d <= cutoff * (1 - 1e-9) and d <= extension * (1 - 1e-9) and (i, f) not in got:
+                msgs.append(f"query {q.tolist()}: image {f} of atom {i} at distance {d:.6g} (within cutoff {cutoff} and extension {extension}) not returned")
+        if len(got) != len(set(got)):
+            msgs.append("an image is returned twice")
+    return msgs
 
 
 def configs_a(tier):
@@ -331,17 +353,6 @@ def replay(d):
         msgs = conc_matches(**dd)
         return bool(msgs), "; ".join(msgs[:5]) or "ok"
     if d["kind"] == "wrapper":
-        rec = []
-
-        class Spy:
-            def get_cell_list(self, *a):
-                rec.append(a)
-        orig = G.matid.ext
-        G.matid.ext = Spy()
-        try:
-            G.get_cell_list(np.zeros((1, 3)), np.eye(3), np.array([True, True, True]), d["extension"], d["cutoff"])
-        finally:
-            G.matid.ext = orig
-        ok = bool(rec) and rec[0][3] == d["extension"] and rec[0][4] == d["cutoff"]
-        return not ok, "get_cell_list alters extension/cutoff" if not ok else "ok"
+        msgs = conc_cell_list(d["extension"], d["cutoff"])
+        return bool(msgs), "; ".join(msgs[:4]) or "ok"
     return False, "unknown replay kind"
